@@ -402,7 +402,10 @@ pub fn check_b(ctx: &Ctx, bytes: &Vec<u8>) -> Result<(), Fail> {
         decl.push(l.clone());
     }
     for (i, t) in tparams.iter().enumerate() {
-        decl.push(match d.below(4) {
+        decl.push(match d.below(6) {
+            // a bound the user wrote that merely *ends* in FromMeta is another trait
+            4 => format!("{}: local::FromMeta", t),
+            5 => format!("{}: other::darling::FromMeta + Clone", t),
             0 => t.clone(),
             1 => format!("{}: Clone", t),
             2 => format!("{}: Clone + Default", t),
